@@ -33,6 +33,20 @@ func init() {
 		struct{ name, src, want string }{"catchless-try-inside-exec-inside-try", `{{try}}A{{ exec("/sub.jet") }}B{{catch}}CAUGHT{{end}}|after`, "AfallbackB|after"},
 		struct{ name, src, want string }{"catchless-try-inside-exec-with-context", `{{ exec("/sub.jet", "c") }}|{{.}}`, "fallback|ctx"},
 	)
+	// a try whose body finishes without error writes exactly what the body writes outside a try - also when the body
+	// executes a {{return}} (which is no error, whatever it means for the rest of the rendering): 'want' holds the same
+	// template without the try
+	for _, p := range [][3]string{
+		{"return-in-body", `a{{try}}b{{return "v"}}c{{end}}d`, `ab{{return "v"}}cd`},
+		{"return-in-body-with-catch", `a{{try}}b{{return 1}}c{{catch}}X{{end}}d|{{.}}`, `ab{{return 1}}cd|{{.}}`},
+		{"return-in-if-in-body", `a{{try}}{{if true}}b{{return 1}}{{end}}c{{end}}d`, `a{{if true}}b{{return 1}}{{end}}cd`},
+		{"return-in-range-in-body", `a{{try}}{{range i := ints(0, 2)}}b{{return i}}{{end}}c{{end}}d`, `a{{range i := ints(0, 2)}}b{{return i}}{{end}}cd`},
+		{"return-in-included-body", `a{{include "/rettry.jet"}}d`, `a{{include "/retplain.jet"}}d`},
+		{"return-in-nested-try", `a{{try}}b{{try}}c{{return "v"}}{{end}}d{{end}}e`, `abc{{return "v"}}de`},
+		{"return-in-block-yielded-in-body", `{{block rb()}}r{{return "v"}}s{{end}}|{{try}}x{{yield rb()}}y{{end}}z`, `{{block rb()}}r{{return "v"}}s{{end}}|x{{yield rb()}}yz`},
+	} {
+		c13directedCases = append(c13directedCases, struct{ name, src, want string }{"sameas-outside-try:" + p[0], p[1], p[2]})
+	}
 	c13nDirected = len(c13directedCases)
 	c13.nDirected = c13nDirected
 }
@@ -42,7 +56,22 @@ var c13nDirected = len(c13directedCases)
 func c13directedCase(c *fw.Ctx, idx int) bool {
 	d := c13directedCases[idx]
 	files := map[string]string{"/t.jet": d.src, "/inc.jet": `{{try}}{{nosuchvar}}{{catch e}}c{{return 1}}{{end}}[{{isset(e)}}]`,
-		"/sub.jet": `x{{try}}y{{nosuchvar}}z{{end}}w{{return "fallback"}}`}
+		"/sub.jet": `x{{try}}y{{nosuchvar}}z{{end}}w{{return "fallback"}}`, "/rettry.jet": `{{try}}b{{return "v"}}c{{end}}`, "/retplain.jet": `b{{return "v"}}c`}
+	if strings.HasPrefix(d.name, "sameas-outside-try:") {
+		files["/plain.jet"] = d.want
+		c.Begin(idx, map[string]interface{}{"directed": "a successful try body renders what it renders outside a try", "name": d.name, "files": files})
+		defer c.End()
+		with := jx.Run(files, "/t.jet", jet.VarMap{}, "ctx", jx.NoEscape)
+		without := jx.Run(files, "/plain.jet", jet.VarMap{}, "ctx", jx.NoEscape)
+		c.Count("directed_same_as_outside_try_cases", 1)
+		c.Eval(2)
+		if with.Panic != nil || with.ParseErr != nil || without.Failed() || with.Err != nil || with.Out != without.Out || without.Out == "" {
+			c.Violation("c13:"+d.name, "", fmt.Sprintf("with try: %s; the same body outside a try: %s", with, without))
+			return true
+		}
+		c.Distinct("sameas|" + d.name)
+		return true
+	}
 	c.Begin(idx, map[string]interface{}{"directed": "catch body executing return", "name": d.name, "files": files})
 	defer c.End()
 	res := jx.Run(files, "/t.jet", jet.VarMap{}, "ctx", jx.NoEscape)
